@@ -308,7 +308,11 @@ def run(ck: Check) -> None:
         "dots) x 8 loaders (dict, choice, file system with and without ext, four caching ones, two with a namespace key) x alias or "
         "not (exhaustive); broad: 63 templates covering every registered tag x 9 data sets x 20 environment configurations (all "
         "feature flags, tolerance, undefined types, autoescape, every resource limit), render / analyze / get_template through both "
-        "APIs.  Non-trivial = the case reaches the named mechanism; distinct = distinct case."
+        "APIs; paired tags: include (2 names x 6 bound variables x alias x 6 keyword-argument sets incl. arguments that shadow the bound "
+        "variable or read each other x 4 partial bodies x 5 loop-limit / nesting scenes), render (with / for, same axes) and call (3 "
+        "signatures x 3 positional x 4 keyword sets x 3 bodies x 5 scenes), each run through both APIs with a recording mapping that "
+        "logs every global lookup in order (sampled in the quick tier, exhaustive in the thorough tier).  Non-trivial = the case "
+        "reaches the named mechanism; distinct = distinct case."
     )
     ck.exhaustive = True
     ck.trusted_base = [
@@ -316,7 +320,9 @@ def run(ck: Check) -> None:
         "harness: generators, path / Gallina printers, the counting condition drop, loader sandboxes (props/c01.py)",
         "modelled not verified: dict / list item access, pathlib.Path(name).name, str.split; asyncio scheduling is not modelled (no "
         "model function yields)",
-        "no model for analyze / analyze_async, include / render / extends and the remaining tags: their two copies are compared on "
+        "include / render / call are modelled as sequences of context operations (PairTags.v): scope stack, evaluation log, copy flags, "
+        "loop-limit arithmetic; expression values are ints / int lists / undefined, partial bodies are six probe statements",
+        "no model for analyze / analyze_async, extends / block / block.super and the remaining tags: their two copies are compared on "
         "the implementation only (oracle); the caching-loader pair is modelled and proved in C23",
     ]
     ck.assumptions = [
@@ -328,6 +334,7 @@ def run(ck: Check) -> None:
     _elsif(ck)
     _loaders(ck)
     _broad(ck)
+    _tags(ck)
 
 
 def _paths(ck: Check) -> None:
@@ -555,6 +562,338 @@ def _broad(ck: Check) -> None:
                      no_input=True)
 
 
+# ================================================================================================ paired tags
+# include / render / call: both hand-written copies against PairTags.v.  Observed through the public API:
+#   * an EVALUATION LOG: every variable lookup that reaches the template's `matter` mapping (a recording Mapping
+#     passed to from_string), in order, with hit or miss -- which shows both the order of evaluation and whether a
+#     keyword argument / bound variable was already in scope when an expression was evaluated;
+#   * the output, split into printed values, counters, loop dots and forloop indexes;
+#   * the exception class (loop limit through carried iterations, disabled include, break under block scope ...).
+TAG_IMPORTS = "PyPrims MacroArgs PairTags"
+TAG_GLOBALS = {"gx": 5, "gl": [1, 2, 3], "g2": [4, 6], "a": 9, "tn": "p"}
+
+
+def _recorder(data):
+    from collections.abc import Mapping
+
+    class Rec(Mapping):
+        def __init__(self):
+            self.log = []
+
+        def __getitem__(self, k):
+            if k in data:
+                self.log.append((k, True))
+                return data[k]
+            self.log.append((k, False))
+            raise KeyError(k)
+
+        def __iter__(self):
+            return iter(data)
+
+        def __len__(self):
+            return len(data)
+
+    return Rec()
+
+
+# expressions: ("lit", n) | ("var", name)
+def ex_src(e):
+    return str(e[1])
+
+
+def g_ex(e):
+    return f"ELit (VS {g_Z(e[1])})" if e[0] == "lit" else f"EVar {g_str(e[1])}"
+
+
+def g_v(x):
+    if isinstance(x, list):
+        return f"VL {g_list(g_Z(z) for z in x)}"
+    if isinstance(x, str):
+        return "VS 0"  # a template name held in a variable: its value is only used as a name
+    return f"VS {g_Z(x)}"
+
+
+# bodies: ("print", n) ("for", len) ("incr",) ("include",) ("break",) ("index",)
+def body_src(body):
+    out = []
+    for n in body:
+        if n[0] == "print":
+            out.append("{{ " + n[1] + " | join: ',' }};")
+        elif n[0] == "for":
+            out.append("!{% for q in (1.." + str(n[1]) + ") %}.{% endfor %};")
+        elif n[0] == "incr":
+            out.append("#{% increment cnt %};")
+        elif n[0] == "include":
+            out.append("{% include 'empty' %}")
+        elif n[0] == "break":
+            out.append("{% break %}")
+        else:
+            out.append("@{{ forloop.index }};")
+    return "".join(out)
+
+
+def g_body(body):
+    m = {"print": lambda n: f"PPrint {g_str(n[1])}", "for": lambda n: f"PFor {g_nat(n[1])}", "incr": lambda n: "PIncr",
+         "include": lambda n: "PInclude", "break": lambda n: "PBreak", "index": lambda n: "PIndex"}
+    return g_list(m[n[0]](n) for n in body)
+
+
+def parse_out(text):
+    evs = []
+    for tok in text.split(";")[:-1]:
+        if tok.startswith("#"):
+            evs.append(f"OCount {g_nat(int(tok[1:]))}")
+        elif tok.startswith("!"):
+            evs.append(f"ODots {g_nat(len(tok) - 1)}")
+        elif tok.startswith("@"):
+            evs.append(f"OIdx {g_nat(int(tok[1:]))}" if tok[1:] else "OV VU")
+        elif tok == "":
+            evs.append("OV VU")
+        elif "," in tok:
+            evs.append(f"OV (VL {g_list(g_Z(int(z)) for z in tok.split(','))})")
+        else:
+            evs.append(f"OV (VS {g_Z(int(tok))})")
+    return g_list(evs)
+
+
+def wrap_loops(tag, loops):
+    src = tag
+    for i, n in reversed(list(enumerate(loops))):
+        src = "{% for w" + str(i) + " in (1.." + str(n) + ") %}{% if forloop.first %}" + src + "{% endif %}{% endfor %}"
+    return src
+
+
+def tag_env(limit, templates):
+    import liquid
+
+    cls = type("Env", (liquid.Environment,), {"loop_iteration_limit": limit})
+    d = {"empty": ""}
+    d.update(templates)
+    return cls(extra=True, loader=liquid.DictLoader(d))
+
+
+def run_tag(env, src, use_async):
+    rec = _recorder(TAG_GLOBALS)
+    try:
+        t = env.from_string(src, matter=rec)
+        out = run_async(t.render_async()) if use_async else t.render()
+        return (rec.log, out, None)
+    except Exception as e:  # noqa: BLE001
+        return (rec.log, None, classify_exc(e))
+
+
+def g_tobs(o):
+    log, out, err = o
+    seen = g_list(f"({g_str(k)}, {g_bool(h)})" for k, h in log)
+    return "{| o_seen := %s; o_out := %s; o_end := %s |}" % (seen, parse_out(out) if out is not None else "[]",
+                                                             f"Some {err}" if err else "None")
+
+
+def g_tcase(limit, loops, templates, macros):
+    gl = g_list(f"({g_str(k)}, {g_v(x)})" for k, x in TAG_GLOBALS.items())
+    gt = g_list(f"({g_str(k)}, {g_body(b)})" for k, b in templates.items())
+    gm = g_list("(%s, (%s, %s))" % (g_str(k), g_list(f"({g_str(p)}, {g_opt(d, lambda e: '(' + g_ex(e) + ')')})" for p, d in ps), g_body(b))
+                for k, (ps, b) in macros.items())
+    return "{| tc_limit := %s; tc_depth := 30; tc_loops := %s; tc_globals := %s; tc_templates := %s; tc_macros := %s |}" % (
+        g_opt(limit, g_nat), g_list(g_nat(n) for n in loops), gl, gt, gm)
+
+
+BODIES = [
+    [("print", "item"), ("print", "p"), ("print", "a"), ("print", "b"), ("print", "gx"), ("incr",)],
+    [("print", "item"), ("for", 2), ("print", "a"), ("index",), ("incr",)],
+    [("print", "p"), ("include",), ("print", "a")],
+    [("print", "item"), ("incr",), ("break",), ("print", "a")],
+]
+ARGSETS = [
+    [],
+    [("a", ("lit", 1))],
+    [("a", ("var", "gx")), ("b", ("var", "a"))],          # arguments that read each other: b sees the caller's a
+    [("gx", ("lit", 7))],                                  # a keyword argument that shadows the bound variable
+    [("item", ("lit", 3)), ("gl", ("lit", 8))],
+    [("a", ("lit", 1)), ("b", ("var", "gm")), ("a", ("var", "g2"))],
+]
+SCENES = [(None, []), (12, [2]), (11, [2, 3]), (24, [2, 3]), (5, [])]
+
+
+def gen_include(ck):
+    yield ("lit", "nosuch"), None, None, [], 0, BODIES[0], None, []
+    yield ("lit", "nosuch"), ("var", "gx"), "item", ARGSETS[2], 0, BODIES[0], 12, [2]
+    for name in (("lit", "p"), ("var", "tn")):
+        for var in (None, ("var", "gx"), ("var", "gl"), ("var", "gm"), ("var", "a"), ("var", "g2")):
+            for alias in (None, "item"):
+                if var is None and alias:
+                    continue
+                for args in ARGSETS:
+                    for bi, body in enumerate(BODIES):
+                        for limit, loops in SCENES:
+                            if ck.quick and ck.rng.random() < 0.85:
+                                continue
+                            yield name, var, alias, args, bi, body, limit, loops
+
+
+def include_src(name, var, alias, args, kw="with"):
+    s = "{% include " + (f"'{name[1]}'" if name[0] == "lit" else name[1])
+    if var is not None:
+        s += f" {kw} {var[1]}" + (f" as {alias}" if alias else "")
+    if args:
+        s += ", " + ", ".join(f"{k}: {ex_src(e)}" for k, e in args)
+    return s + " %}"
+
+
+def gen_render(ck):
+    yield "nosuch", None, False, None, [], 0, BODIES[0], None, []
+    yield "nosuch", ("var", "gl"), True, "item", ARGSETS[2], 0, BODIES[0], 12, [2]
+    for tname in ("p",):
+        for var in (None, ("var", "gx"), ("var", "gl"), ("var", "gm"), ("var", "a"), ("var", "g2")):
+            for loop in (False, True):
+                if var is None and loop:
+                    continue
+                for alias in (None, "item"):
+                    if var is None and alias:
+                        continue
+                    for args in ARGSETS:
+                        for bi, body in enumerate(BODIES):
+                            for limit, loops in SCENES:
+                                if ck.quick and ck.rng.random() < 0.85:
+                                    continue
+                                yield tname, var, loop, alias, args, bi, body, limit, loops
+
+
+def render_src(tname, var, loop, alias, args):
+    s = "{% render '" + tname + "'"
+    if var is not None:
+        s += (" for " if loop else " with ") + var[1] + (f" as {alias}" if alias else "")
+    if args:
+        s += ", " + ", ".join(f"{k}: {ex_src(e)}" for k, e in args)
+    return s + " %}"
+
+
+PARAMSETS = [
+    [("a", None)],
+    [("a", None), ("b", ("var", "gx"))],
+    [("a", ("lit", 1)), ("b", ("var", "a"))],
+]
+POSSETS = [[], [("lit", 1)], [("var", "gx"), ("var", "gl"), ("var", "gm")]]
+KWSETS = [[], [("b", ("lit", 2))], [("x", ("var", "gm"))], [("a", ("var", "gx")), ("y", ("var", "a"))]]
+MACRO_BODIES = [
+    [("print", "a"), ("print", "b"), ("print", "gx"), ("incr",)],
+    [("print", "a"), ("for", 2), ("index",)],
+    [("print", "b"), ("include",)],
+]
+
+
+def gen_call(ck):
+    for defined in (True, False):
+        for params in PARAMSETS:
+            for pos in POSSETS:
+                for kws in KWSETS:
+                    for bi, body in enumerate(MACRO_BODIES):
+                        for limit, loops in SCENES:
+                            if not defined and (bi or loops):
+                                continue
+                            if ck.quick and defined and ck.rng.random() < 0.5:
+                                continue
+                            yield defined, params, pos, kws, bi, body, limit, loops
+
+
+def call_src(defined, params, pos, kws, body):
+    ps = ", ".join(p if d is None else f"{p}: {ex_src(d)}" for p, d in params)
+    args = ", ".join([ex_src(e) for e in pos] + [f"{k}: {ex_src(e)}" for k, e in kws])
+    macro = "{% macro m " + ps + " %}" + body_src(body) + "{% endmacro %}" if defined else ""
+    return macro, "{% call m" + (" " + args if args else "") + " %}"
+
+
+def _tag_family(ck, fam, gen, build):
+    """build(case) -> (src, env, coq_case_term, signature_hint)"""
+    cases, expected, meta = [], [], []
+    reported = {}
+    envs = {}
+    for case in gen(ck):
+        src, envkey, templates, limit, term, hint = build(case)
+        ek = (fam, limit, envkey)
+        env = envs.get(ek)
+        if env is None:
+            env = envs[ek] = tag_env(limit, templates)
+        s = run_tag(env, src, False)
+        a = run_tag(env, src, True)
+        ck.note_case((fam, src, limit), nontrivial=True)
+        ck.count(f"tags.{fam}." + ("ok" if s[2] is None else s[2]))
+        if s != a:
+            what = "evaluation order / scope" if s[0] != a[0] else ("exception" if s[2] != a[2] else "output")
+            sig = f"tags:{fam}:{what.split()[0]}:{hint}"
+            reported[sig] = reported.get(sig, 0) + 1
+            if reported[sig] <= 2:
+                ck.violation("impl-violation", sig,
+                             f"{src!r} (loop limit {limit}): render looks up {s[0]} and gives {s[1] if s[2] is None else s[2]!r}; "
+                             f"render_async looks up {a[0]} and gives {a[1] if a[2] is None else a[2]!r}",
+                             {"type": "tags", "family": fam, "template": src, "limit": limit, "partials": {k: body_src(b) for k, b in templates.items()} if fam != "call" else {}})
+        cases.append(term)
+        expected.append(f"({g_tobs(s)}, {g_tobs(a)})")
+        meta.append((src, limit, s, a))
+    if not cases:
+        return
+    ck.sample({"template": meta[len(meta) // 2][0], "lookups": meta[len(meta) // 2][2][0], "output": meta[len(meta) // 2][2][1]})
+    casetype = {"include": "tcase * include_node", "render": "tcase * render_node", "call": "tcase * call_node"}[fam]
+    mm = ck.coq_mismatches(f"tags_{fam}", TAG_IMPORTS, f"run_{fam}", "obs2_eqb", casetype, "obs * obs", cases, expected, chunk=400)
+    ck.traces += len(cases)
+    shown = 0
+    for i in mm:
+        src, limit, s, a = meta[i]
+        if s != a or shown >= 3:
+            continue
+        shown += 1
+        model = ck.coq_eval(TAG_IMPORTS, [f"run_{fam} ({cases[i]})"])[0]
+        ck.violation("correspondence", f"c01-tags-{fam}-correspondence",
+                     f"model PairTags.run_{fam} and the implementation disagree on {src!r} (loop limit {limit}): implementation looks up "
+                     f"{s[0]} and gives {s[1] if s[2] is None else s[2]!r}",
+                     {"type": "tags", "family": fam, "template": src, "limit": limit, "impl": [s, a], "model": model[:1500],
+                      "broken": f"correspondence PairTags.run_{fam} ~ the {fam} tag through both APIs (theorem C01_{fam}_tag)"}, no_input=True)
+
+
+def _tags(ck: Check) -> None:
+    def b_include(case):
+        name, var, alias, args, bi, body, limit, loops = case
+        tag = include_src(name, var, alias, args)
+        templates = {"p": body_src(body)}
+        tname = "p" if name[1] in ("p", "tn") else "nosuch"
+        node = "{| in_name := %s; in_tname := %s; in_var := %s; in_alias := %s; in_args := %s |}" % (
+            ("ELit (VS 0)" if name[0] == "lit" else f"EVar {g_str(name[1])}"), g_str(tname), g_opt(var, lambda e: "(" + g_ex(e) + ")"),
+            g_opt(alias, g_str), g_list(f"({g_str(k)}, {g_ex(e)})" for k, e in args))
+        term = f"({g_tcase(limit, loops, {'p': body}, {})}, {node})"
+        return wrap_loops(tag, loops), bi, templates, limit, term, "with-var" if var else "plain"
+
+    def b_render(case):
+        tname, var, loop, alias, args, bi, body, limit, loops = case
+        tag = render_src(tname, var, loop, alias, args)
+        node = "{| rn_tname := %s; rn_var := %s; rn_loop := %s; rn_alias := %s; rn_args := %s |}" % (
+            g_str(tname), g_opt(var, lambda e: "(" + g_ex(e) + ")"), g_bool(loop), g_opt(alias, g_str),
+            g_list(f"({g_str(k)}, {g_ex(e)})" for k, e in args))
+        term = f"({g_tcase(limit, loops, {'p': body}, {})}, {node})"
+        return wrap_loops(tag, loops), bi, {"p": body_src(body)}, limit, term, ("for" if loop else "with") if var else "plain"
+
+    def b_call(case):
+        defined, params, pos, kws, bi, body, limit, loops = case
+        macro, tag = call_src(defined, params, pos, kws, body)
+        node = "{| cn_name := %s; cn_pos := %s; cn_kws := %s |}" % (
+            g_str("m"), g_list(g_ex(e) for e in pos), g_list(f"({g_str(k)}, {g_ex(e)})" for k, e in kws))
+        term = f"({g_tcase(limit, loops, {}, {'m': (params, body)} if defined else {})}, {node})"
+        return macro + wrap_loops(tag, loops), 0, {}, limit, term, "call"
+
+    _tag_family(ck, "include", gen_include, b_include)
+    _tag_family(ck, "render", gen_render, b_render)
+    _tag_family(ck, "call", gen_call, b_call)
+
+
+def replay_tags(case) -> bool:
+    env = tag_env(case["limit"], case.get("partials", {}))
+    s = run_tag(env, case["template"], False)
+    a = run_tag(env, case["template"], True)
+    print(case["template"])
+    print("sync :", s)
+    print("async:", a)
+    return s != a
+
+
 def replay(data) -> int:
     import warnings
 
@@ -611,6 +950,8 @@ def replay(data) -> int:
                 a = outcome(lambda: P.analysis_of(run_async(t.analyze_async())))
         print(src, "sync:", s, "async:", a)
         bad = s != a
+    elif typ == "tags":
+        bad = replay_tags(case)
     else:
         print("unknown replay case", case)
         return 1
